@@ -16,6 +16,9 @@ import (
 
 func init() {
 	register(&PropertyCheck{ID: "C10", Level: "other", Run: checkC10, Canaries: []Canary{
+		{Name: "adv6-A2-write-retried-after-a-failure", Rule: "R10.1", Where: "(*Connect).WriteTo", Edits: []Edit{{"connect.go", "\tn, err := w.Write(b)", "\tn, err := w.Write(b)\n\tif err != nil && n == 0 {\n\t\t// nothing has reached the peer, typically a deadline that\n\t\t// expired on a connection that was just opened; the frame is\n\t\t// intact so it is offered once more\n\t\tn, err = w.Write(b)\n\t}"}}},
+		{Name: "adv6-A1-frame-written-in-pieces", Rule: "R10.1", Where: "(*Publish).WriteTo", Edits: []Edit{{"publish.go", "\tn, err := w.Write(b)\n\treturn int64(n), err\n}", "\n\t// a very large frame is handed over in pieces, writers such as\n\t// tls.Conn or a websocket adapter split or reject huge slices\n\tpieces := (len(b) + maxWrite - 1) / maxWrite\n\tfor i := 0; i < pieces; i++ {\n\t\tend := (i + 1) * maxWrite\n\t\tif end > len(b) {\n\t\t\tend = len(b)\n\t\t}\n\t\tn, err := w.Write(b[i*maxWrite : end])\n\t\tif err != nil {\n\t\t\treturn int64(n), err\n\t\t}\n\t}\n\treturn int64(len(b)), nil\n}\n\n// maxWrite is the largest slice handed to a writer in one call\nconst maxWrite = 4 << 20"}}},
+		{Name: "rf8-shared-writer-patches-the-buffer-after-the-encoder", Rule: "R10.5", Where: "(*PingReq).WriteTo", Edits: []Edit{{"packet.go", "\treturn p, nil\n}\n", "\treturn p, nil\n}\n\n// headerString returns the short readable form shared by packets\n// without variable header, e.g. PINGREQ ---- 2 bytes\nfunc headerString(fixed bits, size int) string {\n\treturn fmt.Sprintf(\"%s %v bytes\", firstByte(fixed).String(), size)\n}\n\n// fillHeaderOnly fills b from position i with a fixed header\n// announcing no remaining data. Returns the position after the\n// header.\nfunc fillHeaderOnly(b []byte, i int, fixed bits) int {\n\ti += fixed.fill(b, i)    // firstByte header\n\ti += vbint(0).fill(b, i) // remaining length none\n\treturn i\n}\n\n// writeHeaderOnly writes a packet consisting of the fixed header only\n// in one write.\nfunc writeHeaderOnly(w io.Writer, fixed bits) (int64, error) {\n\tb := make([]byte, fillHeaderOnly(_LEN, 0, fixed))\n\tfillHeaderOnly(b, 0, fixed)\n\tb[0] |= 1\n\tn, err := w.Write(b)\n\treturn int64(n), err\n}\n"}, {"pingreq.go", "\t\"fmt\"\n\t\"io\"\n)\n\nfunc NewPingReq() *PingReq {\n\treturn &PingReq{fixed: bits(PINGREQ)}\n}\n\ntype PingReq struct {\n\tfixed bits\n}\n\nfunc (p *PingReq) String() string {\n\treturn fmt.Sprintf(\"%s %v bytes\",\n\t\tfirstByte(p.fixed).String(),\n\t\tp.width(),\n\t)\n}\n\nfunc (p *PingReq) WriteTo(w io.Writer) (int64, error) {\n\tb := make([]byte, p.width())\n\tp.fill(b, 0)\n\tn, err := w.Write(b)\n\treturn int64(n), err\n}\n\nfunc (p *PingReq) width() int {\n\treturn p.fill(_LEN, 0)\n}\n\nfunc (p *PingReq) fill(b []byte, i int) int {\n\ti += p.fixed.fill(b, i)  // firstByte header\n\ti += vbint(0).fill(b, i) // remaining length none\n\treturn i", "\t\"io\"\n)\n\nfunc NewPingReq() *PingReq {\n\treturn &PingReq{fixed: bits(PINGREQ)}\n}\n\ntype PingReq struct {\n\tfixed bits\n}\n\nfunc (p *PingReq) String() string {\n\treturn headerString(p.fixed, p.width())\n}\n\nfunc (p *PingReq) WriteTo(w io.Writer) (int64, error) {\n\treturn writeHeaderOnly(w, p.fixed)\n}\n\nfunc (p *PingReq) width() int {\n\treturn p.fill(_LEN, 0)\n}\n\nfunc (p *PingReq) fill(b []byte, i int) int {\n\treturn fillHeaderOnly(b, i, p.fixed)"}, {"pingresp.go", "\t\"fmt\"\n\t\"io\"\n)\n\nfunc NewPingResp() *PingResp {\n\treturn &PingResp{fixed: bits(PINGRESP)}\n}\n\ntype PingResp struct {\n\tfixed bits\n}\n\nfunc (p *PingResp) String() string {\n\treturn fmt.Sprintf(\"%s %v bytes\",\n\t\tfirstByte(p.fixed).String(),\n\t\tp.width(),\n\t)\n}\n\nfunc (p *PingResp) WriteTo(w io.Writer) (int64, error) {\n\tb := make([]byte, p.width())\n\tp.fill(b, 0)\n\tn, err := w.Write(b)\n\treturn int64(n), err\n}\n\nfunc (p *PingResp) width() int {\n\treturn p.fill(_LEN, 0)\n}\n\nfunc (p *PingResp) fill(b []byte, i int) int {\n\ti += p.fixed.fill(b, i)  // firstByte header\n\ti += vbint(0).fill(b, i) // remaining length none\n\treturn i", "\t\"io\"\n)\n\nfunc NewPingResp() *PingResp {\n\treturn &PingResp{fixed: bits(PINGRESP)}\n}\n\ntype PingResp struct {\n\tfixed bits\n}\n\nfunc (p *PingResp) String() string {\n\treturn headerString(p.fixed, p.width())\n}\n\nfunc (p *PingResp) WriteTo(w io.Writer) (int64, error) {\n\treturn writeHeaderOnly(w, p.fixed)\n}\n\nfunc (p *PingResp) width() int {\n\treturn p.fill(_LEN, 0)\n}\n\nfunc (p *PingResp) fill(b []byte, i int) int {\n\treturn fillHeaderOnly(b, i, p.fixed)"}, {"undefined.go", "\treturn fmt.Sprintf(\"%s %v bytes\",\n\t\tfirstByte(p.fixed).String(), 0,\n\t)", "\treturn headerString(p.fixed, 0)"}}},
 		{Name: "rf8-shared-writer-sets-a-flag-bit", Rule: "R10.5", Where: "(*PingReq).WriteTo", Edits: []Edit{{"packet.go", "\treturn p, nil\n}\n", "\treturn p, nil\n}\n\n// headerString returns the short readable form shared by packets\n// without variable header, e.g. PINGREQ ---- 2 bytes\nfunc headerString(fixed bits, size int) string {\n\treturn fmt.Sprintf(\"%s %v bytes\", firstByte(fixed).String(), size)\n}\n\n// fillHeaderOnly fills b from position i with a fixed header\n// announcing no remaining data. Returns the position after the\n// header.\nfunc fillHeaderOnly(b []byte, i int, fixed bits) int {\n\ti += fixed.fill(b, i)    // firstByte header\n\ti += vbint(0).fill(b, i) // remaining length none\n\treturn i\n}\n\n// writeHeaderOnly writes a packet consisting of the fixed header only\n// in one write.\nfunc writeHeaderOnly(w io.Writer, fixed bits) (int64, error) {\n\tb := make([]byte, fillHeaderOnly(_LEN, 0, fixed))\n\tfillHeaderOnly(b, 0, fixed|1)\n\tn, err := w.Write(b)\n\treturn int64(n), err\n}\n"}, {"pingreq.go", "\t\"fmt\"\n\t\"io\"\n)\n\nfunc NewPingReq() *PingReq {\n\treturn &PingReq{fixed: bits(PINGREQ)}\n}\n\ntype PingReq struct {\n\tfixed bits\n}\n\nfunc (p *PingReq) String() string {\n\treturn fmt.Sprintf(\"%s %v bytes\",\n\t\tfirstByte(p.fixed).String(),\n\t\tp.width(),\n\t)\n}\n\nfunc (p *PingReq) WriteTo(w io.Writer) (int64, error) {\n\tb := make([]byte, p.width())\n\tp.fill(b, 0)\n\tn, err := w.Write(b)\n\treturn int64(n), err\n}\n\nfunc (p *PingReq) width() int {\n\treturn p.fill(_LEN, 0)\n}\n\nfunc (p *PingReq) fill(b []byte, i int) int {\n\ti += p.fixed.fill(b, i)  // firstByte header\n\ti += vbint(0).fill(b, i) // remaining length none\n\treturn i", "\t\"io\"\n)\n\nfunc NewPingReq() *PingReq {\n\treturn &PingReq{fixed: bits(PINGREQ)}\n}\n\ntype PingReq struct {\n\tfixed bits\n}\n\nfunc (p *PingReq) String() string {\n\treturn headerString(p.fixed, p.width())\n}\n\nfunc (p *PingReq) WriteTo(w io.Writer) (int64, error) {\n\treturn writeHeaderOnly(w, p.fixed)\n}\n\nfunc (p *PingReq) width() int {\n\treturn p.fill(_LEN, 0)\n}\n\nfunc (p *PingReq) fill(b []byte, i int) int {\n\treturn fillHeaderOnly(b, i, p.fixed)"}, {"pingresp.go", "\t\"fmt\"\n\t\"io\"\n)\n\nfunc NewPingResp() *PingResp {\n\treturn &PingResp{fixed: bits(PINGRESP)}\n}\n\ntype PingResp struct {\n\tfixed bits\n}\n\nfunc (p *PingResp) String() string {\n\treturn fmt.Sprintf(\"%s %v bytes\",\n\t\tfirstByte(p.fixed).String(),\n\t\tp.width(),\n\t)\n}\n\nfunc (p *PingResp) WriteTo(w io.Writer) (int64, error) {\n\tb := make([]byte, p.width())\n\tp.fill(b, 0)\n\tn, err := w.Write(b)\n\treturn int64(n), err\n}\n\nfunc (p *PingResp) width() int {\n\treturn p.fill(_LEN, 0)\n}\n\nfunc (p *PingResp) fill(b []byte, i int) int {\n\ti += p.fixed.fill(b, i)  // firstByte header\n\ti += vbint(0).fill(b, i) // remaining length none\n\treturn i", "\t\"io\"\n)\n\nfunc NewPingResp() *PingResp {\n\treturn &PingResp{fixed: bits(PINGRESP)}\n}\n\ntype PingResp struct {\n\tfixed bits\n}\n\nfunc (p *PingResp) String() string {\n\treturn headerString(p.fixed, p.width())\n}\n\nfunc (p *PingResp) WriteTo(w io.Writer) (int64, error) {\n\treturn writeHeaderOnly(w, p.fixed)\n}\n\nfunc (p *PingResp) width() int {\n\treturn p.fill(_LEN, 0)\n}\n\nfunc (p *PingResp) fill(b []byte, i int) int {\n\treturn fillHeaderOnly(b, i, p.fixed)"}, {"undefined.go", "\treturn fmt.Sprintf(\"%s %v bytes\",\n\t\tfirstByte(p.fixed).String(), 0,\n\t)", "\treturn headerString(p.fixed, 0)"}}},
 		{Name: "rf8-shared-writer-drops-the-write-error", Rule: "R10.5", Where: "(*PingReq).WriteTo", Edits: []Edit{{"packet.go", "\treturn p, nil\n}\n", "\treturn p, nil\n}\n\n// headerString returns the short readable form shared by packets\n// without variable header, e.g. PINGREQ ---- 2 bytes\nfunc headerString(fixed bits, size int) string {\n\treturn fmt.Sprintf(\"%s %v bytes\", firstByte(fixed).String(), size)\n}\n\n// fillHeaderOnly fills b from position i with a fixed header\n// announcing no remaining data. Returns the position after the\n// header.\nfunc fillHeaderOnly(b []byte, i int, fixed bits) int {\n\ti += fixed.fill(b, i)    // firstByte header\n\ti += vbint(0).fill(b, i) // remaining length none\n\treturn i\n}\n\n// writeHeaderOnly writes a packet consisting of the fixed header only\n// in one write.\nfunc writeHeaderOnly(w io.Writer, fixed bits) (int64, error) {\n\tb := make([]byte, fillHeaderOnly(_LEN, 0, fixed))\n\tfillHeaderOnly(b, 0, fixed)\n\tn, _ := w.Write(b)\n\treturn int64(n), nil\n}\n"}, {"pingreq.go", "\t\"fmt\"\n\t\"io\"\n)\n\nfunc NewPingReq() *PingReq {\n\treturn &PingReq{fixed: bits(PINGREQ)}\n}\n\ntype PingReq struct {\n\tfixed bits\n}\n\nfunc (p *PingReq) String() string {\n\treturn fmt.Sprintf(\"%s %v bytes\",\n\t\tfirstByte(p.fixed).String(),\n\t\tp.width(),\n\t)\n}\n\nfunc (p *PingReq) WriteTo(w io.Writer) (int64, error) {\n\tb := make([]byte, p.width())\n\tp.fill(b, 0)\n\tn, err := w.Write(b)\n\treturn int64(n), err\n}\n\nfunc (p *PingReq) width() int {\n\treturn p.fill(_LEN, 0)\n}\n\nfunc (p *PingReq) fill(b []byte, i int) int {\n\ti += p.fixed.fill(b, i)  // firstByte header\n\ti += vbint(0).fill(b, i) // remaining length none\n\treturn i", "\t\"io\"\n)\n\nfunc NewPingReq() *PingReq {\n\treturn &PingReq{fixed: bits(PINGREQ)}\n}\n\ntype PingReq struct {\n\tfixed bits\n}\n\nfunc (p *PingReq) String() string {\n\treturn headerString(p.fixed, p.width())\n}\n\nfunc (p *PingReq) WriteTo(w io.Writer) (int64, error) {\n\treturn writeHeaderOnly(w, p.fixed)\n}\n\nfunc (p *PingReq) width() int {\n\treturn p.fill(_LEN, 0)\n}\n\nfunc (p *PingReq) fill(b []byte, i int) int {\n\treturn fillHeaderOnly(b, i, p.fixed)"}, {"pingresp.go", "\t\"fmt\"\n\t\"io\"\n)\n\nfunc NewPingResp() *PingResp {\n\treturn &PingResp{fixed: bits(PINGRESP)}\n}\n\ntype PingResp struct {\n\tfixed bits\n}\n\nfunc (p *PingResp) String() string {\n\treturn fmt.Sprintf(\"%s %v bytes\",\n\t\tfirstByte(p.fixed).String(),\n\t\tp.width(),\n\t)\n}\n\nfunc (p *PingResp) WriteTo(w io.Writer) (int64, error) {\n\tb := make([]byte, p.width())\n\tp.fill(b, 0)\n\tn, err := w.Write(b)\n\treturn int64(n), err\n}\n\nfunc (p *PingResp) width() int {\n\treturn p.fill(_LEN, 0)\n}\n\nfunc (p *PingResp) fill(b []byte, i int) int {\n\ti += p.fixed.fill(b, i)  // firstByte header\n\ti += vbint(0).fill(b, i) // remaining length none\n\treturn i", "\t\"io\"\n)\n\nfunc NewPingResp() *PingResp {\n\treturn &PingResp{fixed: bits(PINGRESP)}\n}\n\ntype PingResp struct {\n\tfixed bits\n}\n\nfunc (p *PingResp) String() string {\n\treturn headerString(p.fixed, p.width())\n}\n\nfunc (p *PingResp) WriteTo(w io.Writer) (int64, error) {\n\treturn writeHeaderOnly(w, p.fixed)\n}\n\nfunc (p *PingResp) width() int {\n\treturn p.fill(_LEN, 0)\n}\n\nfunc (p *PingResp) fill(b []byte, i int) int {\n\treturn fillHeaderOnly(b, i, p.fixed)"}, {"undefined.go", "\treturn fmt.Sprintf(\"%s %v bytes\",\n\t\tfirstByte(p.fixed).String(), 0,\n\t)", "\treturn headerString(p.fixed, 0)"}}},
 		{Name: "rf8-header-only-packets-share-a-writer", Silent: true, Edits: []Edit{{"packet.go", "\treturn p, nil\n}\n", "\treturn p, nil\n}\n\n// headerString returns the short readable form shared by packets\n// without variable header, e.g. PINGREQ ---- 2 bytes\nfunc headerString(fixed bits, size int) string {\n\treturn fmt.Sprintf(\"%s %v bytes\", firstByte(fixed).String(), size)\n}\n\n// fillHeaderOnly fills b from position i with a fixed header\n// announcing no remaining data. Returns the position after the\n// header.\nfunc fillHeaderOnly(b []byte, i int, fixed bits) int {\n\ti += fixed.fill(b, i)    // firstByte header\n\ti += vbint(0).fill(b, i) // remaining length none\n\treturn i\n}\n\n// writeHeaderOnly writes a packet consisting of the fixed header only\n// in one write.\nfunc writeHeaderOnly(w io.Writer, fixed bits) (int64, error) {\n\tb := make([]byte, fillHeaderOnly(_LEN, 0, fixed))\n\tfillHeaderOnly(b, 0, fixed)\n\tn, err := w.Write(b)\n\treturn int64(n), err\n}\n"}, {"pingreq.go", "\t\"fmt\"\n\t\"io\"\n)\n\nfunc NewPingReq() *PingReq {\n\treturn &PingReq{fixed: bits(PINGREQ)}\n}\n\ntype PingReq struct {\n\tfixed bits\n}\n\nfunc (p *PingReq) String() string {\n\treturn fmt.Sprintf(\"%s %v bytes\",\n\t\tfirstByte(p.fixed).String(),\n\t\tp.width(),\n\t)\n}\n\nfunc (p *PingReq) WriteTo(w io.Writer) (int64, error) {\n\tb := make([]byte, p.width())\n\tp.fill(b, 0)\n\tn, err := w.Write(b)\n\treturn int64(n), err\n}\n\nfunc (p *PingReq) width() int {\n\treturn p.fill(_LEN, 0)\n}\n\nfunc (p *PingReq) fill(b []byte, i int) int {\n\ti += p.fixed.fill(b, i)  // firstByte header\n\ti += vbint(0).fill(b, i) // remaining length none\n\treturn i", "\t\"io\"\n)\n\nfunc NewPingReq() *PingReq {\n\treturn &PingReq{fixed: bits(PINGREQ)}\n}\n\ntype PingReq struct {\n\tfixed bits\n}\n\nfunc (p *PingReq) String() string {\n\treturn headerString(p.fixed, p.width())\n}\n\nfunc (p *PingReq) WriteTo(w io.Writer) (int64, error) {\n\treturn writeHeaderOnly(w, p.fixed)\n}\n\nfunc (p *PingReq) width() int {\n\treturn p.fill(_LEN, 0)\n}\n\nfunc (p *PingReq) fill(b []byte, i int) int {\n\treturn fillHeaderOnly(b, i, p.fixed)"}, {"pingresp.go", "\t\"fmt\"\n\t\"io\"\n)\n\nfunc NewPingResp() *PingResp {\n\treturn &PingResp{fixed: bits(PINGRESP)}\n}\n\ntype PingResp struct {\n\tfixed bits\n}\n\nfunc (p *PingResp) String() string {\n\treturn fmt.Sprintf(\"%s %v bytes\",\n\t\tfirstByte(p.fixed).String(),\n\t\tp.width(),\n\t)\n}\n\nfunc (p *PingResp) WriteTo(w io.Writer) (int64, error) {\n\tb := make([]byte, p.width())\n\tp.fill(b, 0)\n\tn, err := w.Write(b)\n\treturn int64(n), err\n}\n\nfunc (p *PingResp) width() int {\n\treturn p.fill(_LEN, 0)\n}\n\nfunc (p *PingResp) fill(b []byte, i int) int {\n\ti += p.fixed.fill(b, i)  // firstByte header\n\ti += vbint(0).fill(b, i) // remaining length none\n\treturn i", "\t\"io\"\n)\n\nfunc NewPingResp() *PingResp {\n\treturn &PingResp{fixed: bits(PINGRESP)}\n}\n\ntype PingResp struct {\n\tfixed bits\n}\n\nfunc (p *PingResp) String() string {\n\treturn headerString(p.fixed, p.width())\n}\n\nfunc (p *PingResp) WriteTo(w io.Writer) (int64, error) {\n\treturn writeHeaderOnly(w, p.fixed)\n}\n\nfunc (p *PingResp) width() int {\n\treturn p.fill(_LEN, 0)\n}\n\nfunc (p *PingResp) fill(b []byte, i int) int {\n\treturn fillHeaderOnly(b, i, p.fixed)"}, {"undefined.go", "\treturn fmt.Sprintf(\"%s %v bytes\",\n\t\tfirstByte(p.fixed).String(), 0,\n\t)", "\treturn headerString(p.fixed, 0)"}}},
@@ -233,7 +236,41 @@ func checkWriteTo(p *Prog, c *Check, fn *ssa.Function) (*ssa.Function, bool) {
 		return f, refuses
 	}
 	// not one of the recognised shapes (the buffer made and written by a helper that is handed a part of the packet):
-	// WriteTo itself is evaluated on abstract packet states with a recording writer and compared with the encoder
+	// WriteTo itself is evaluated on abstract packet states with a recording writer and compared with the encoder —
+	// but only where the structure already guarantees what no sample can: there is exactly one Write site in
+	// everything WriteTo reaches, and it is not in a loop (frames written in pieces, a retry after a failed Write)
+	nsites, inLoop := 0, false
+	for g := range p.Reach([]*ssa.Function{fn}) {
+		if !p.inMQ(g) {
+			continue
+		}
+		for _, b := range g.Blocks {
+			for _, ins := range b.Instrs {
+				ci, isCall := ins.(ssa.CallInstruction)
+				if !isCall {
+					continue
+				}
+				cc := ci.Common()
+				isWrite := cc.IsInvoke() && (cc.Method.Name() == "Write" || cc.Method.Name() == "WriteString" || cc.Method.Name() == "ReadFrom")
+				if sc := cc.StaticCallee(); sc != nil && sc.Blocks == nil {
+					switch fullName(sc) {
+					case "io.WriteString", "io.Copy", "io.CopyN", "fmt.Fprint", "fmt.Fprintf", "fmt.Fprintln":
+						isWrite = true
+					}
+				}
+				if isWrite {
+					nsites++
+					if loopContaining(g, b) != nil {
+						inLoop = true
+					}
+				}
+			}
+		}
+	}
+	if nsites != 1 || inLoop {
+		merge()
+		return f, refuses
+	}
 	if enc, how := p.writeToByEvaluation(fn); enc != nil {
 		c.OK("R10.1", qname(fn), p.Pos(fn.Pos()), how)
 		return enc, false
@@ -326,12 +363,35 @@ func (p *Prog) writeToByEvaluation(wt *ssa.Function) (*ssa.Function, string) {
 		if rs[0].k != 'i' || rs[0].i != total || rs[1].k != 'z' {
 			return nil, ""
 		}
-		// a writer that takes one byte and fails: WriteTo hands back that count and that error, after the one Write
-		p.cache["writefails"] = true
-		_, _, rs2, writes2, why2 := p.traceRun(st, wt, []sv{{k: 'p', addr: st.Recv}, {k: 'I', addr: "WRITER"}}, true)
-		delete(p.cache, "writefails")
-		if why2 != "" || len(writes2) != 1 || len(rs2) != 2 || rs2[0].k != 'i' || rs2[0].i != 1 || rs2[1].k != 'I' || rs2[1].addr != "WERR" {
+		// byte for byte where the evaluation determines the bytes (a store into the buffer behind the encoder's back —
+		// `b[0] |= 1` after fill — is no emission): the buffer handed over holds what the encoder writes into a buffer of
+		// that size
+		snap, _ := p.cache["writesnap"].(map[int64]sv)
+		delete(p.cache, "writesnap")
+		_, _, _, _, whyF := p.traceRun(st, fill, []sv{{k: 'p', addr: st.Recv}, {k: 's', i: total, addr: "REALB"}, {k: 'i', i: 0}}, true)
+		fmem, _ := p.cache["tracemem"].(map[string]sv)
+		delete(p.cache, "tracemem")
+		if whyF != "" || fmem == nil {
 			return nil, ""
+		}
+		for k := int64(0); k < total && k < 4096; k++ {
+			fc, okF := fmem[fmt.Sprintf("REALB[%d]", k)]
+			wc, okW := snap[k]
+			if okF != okW {
+				return nil, ""
+			}
+			if okF && (fc.k != wc.k || fc.i != wc.i || fc.b != wc.b) {
+				return nil, ""
+			}
+		}
+		// a writer that takes one byte and fails: WriteTo hands back that count and that error, after the one Write
+		for _, took := range []int64{1, 0} { // … and one that fails before taking any
+			p.cache["writefails"] = took + 1
+			_, _, rs2, writes2, why2 := p.traceRun(st, wt, []sv{{k: 'p', addr: st.Recv}, {k: 'I', addr: "WRITER"}}, true)
+			delete(p.cache, "writefails")
+			if why2 != "" || len(writes2) != 1 || len(rs2) != 2 || rs2[0].k != 'i' || rs2[0].i != took || rs2[1].k != 'I' || rs2[1].addr != "WERR" {
+				return nil, ""
+			}
 		}
 		n++
 	}
